@@ -255,6 +255,17 @@ func mutantsOf(base, src string) []mutant {
 					if at != nil {
 						if tb, ok := tt.Underlying().(*types.Basic); ok && tb.Info()&types.IsNumeric != 0 {
 							add("invalid-conversion", "numeric(string)", x.Args[0], `"s"`)
+							add("invalid-conversion", "numeric(pointer)", x.Args[0], "new(int)")
+							add("invalid-conversion", "numeric(struct)", x.Args[0], "struct{}{}")
+							add("invalid-conversion", "numeric(slice)", x.Args[0], "[]int{1}")
+						}
+						if tb, ok := tt.Underlying().(*types.Basic); ok && tb.Info()&types.IsString != 0 {
+							add("invalid-conversion", "string(pointer)", x.Args[0], "new(int)")
+							add("invalid-conversion", "string(map)", x.Args[0], "map[int]int{}")
+						}
+						if _, ok := tt.Underlying().(*types.Struct); ok {
+							add("invalid-conversion", "struct(pointer)", x.Args[0], "new(int)")
+							add("invalid-conversion", "struct(int)", x.Args[0], "1")
 						}
 						if tb, ok := tt.Underlying().(*types.Basic); ok && tb.Info()&types.IsString != 0 {
 							add("invalid-conversion", "string(float)", x.Args[0], "1.5")
